@@ -120,13 +120,18 @@ def closure_problems(sk, prefix, pt):
     return out
 
 
-def number_problems(bad):
+OBB_SCALED = {('feOffset', 'dx'), ('feOffset', 'dy'), ('feDropShadow', 'dx'), ('feDropShadow', 'dy'), ('feDisplacementMap', 'scale')}
+
+
+def number_problems(bad, src=''):
     out = []
     for tag, attr, val, tok in bad:
         toks = {tok}
         cls = None
-        if tag.startswith('fe') and (toks & {'inf', '-inf', 'NaN'}):
-            cls = 'nonfinite-filter-number'
+        if (tag, attr) in OBB_SCALED and (toks & {'inf', '-inf', 'NaN'}) and \
+                re.search(r'primitiveUnits\s*=\s*["\']objectBoundingBox', src):
+            # residual of F12: a finite value times the bounding-box scale overflows f32
+            cls = 'obb-scaled-filter-number'
         elif attr in ('transform', 'gradientTransform', 'patternTransform') and (toks & {'inf', '-inf', 'NaN'}):
             cls = 'nonfinite-transform'
         out.append((cls, "<%s %s=\"%s\">: %s is not a plain finite decimal" % (tag, attr, val[:60], tok)))
@@ -279,7 +284,7 @@ def has_empty_definition(d):
     return any(not c['root']['children'] for c in d['clip_paths']) or any(not m['root']['children'] for m in d['masks'])
 
 
-def classify(r, w):
+def classify(r, w, src=''):
     """r = result of c07-write, w = write options.  -> list of (class or None, text)"""
     out = []
     prefix = w.get('prefix') or ''
@@ -302,7 +307,7 @@ def classify(r, w):
             if m and m.group(1)[len(prefix):] in nested and 'resolves to 0' not in text:
                 cls = 'nested-image-defs'
         out.append((cls, text))
-    out += number_problems(r['bad_numbers'])
+    out += number_problems(r['bad_numbers'], src)
     if r['reparse'] is not None:
         out.append((None, "the written text does not parse again: %s" % r['reparse']))
     elif r['size_a'] != r['size_b'] and min(w.get('cp', 8), w.get('tp', 8)) >= 5:
@@ -353,7 +358,8 @@ def f32(x):
 
 def gen_num_cases(rng, n):
     vals = [1.5, 2.25, 7.125, 0.1, 1.0 / 3, 123.456, 0.001234, 99999.9, 3000000000.0, -3000000000.0, 2147483648.0,
-            -2147483648.0, 2147483520.0, 16777216.0, 8388607.5, -0.5, 0.5, 1e-7, 4194303.75, 1e20, -1e20, 65535.996]
+            -2147483648.0, 2147483520.0, 16777216.0, 8388607.5, -0.5, 0.5, 1e-7, 4194303.75, 1e20, -1e20, 65535.996,
+            0.012345678, 0.0012345678, 0.00012345678, 0.098765432]
     out = []
     for _ in range(n):
         r = rng.below(5)
@@ -362,7 +368,7 @@ def gen_num_cases(rng, n):
         elif r == 1:
             x = rng.uniform(-1000, 1000)
         elif r == 2:
-            x = rng.uniform(-1, 1) * 10 ** rng.below(7)
+            x = rng.uniform(-1, 1) * 10.0 ** (rng.below(11) - 4)
         elif r == 3:
             x = (rng.below(1 << 20) - (1 << 19)) / float(1 << rng.below(12))
         else:
@@ -392,6 +398,49 @@ Definition num_ok (c : Z * Q * Q) : bool :=
       end
   end.
 """
+
+
+def write_num_tie(ctx, binp, ncases):
+    """ncases: list of (precision, [4 f32 values]).  Writes a path with these coordinates with the real writer and compares every
+    token with Model/WriteNum.v inside Coq.  -> (number compared, list of (doc, precision, value, token) that disagree or None)"""
+    from fractions import Fraction
+    ndocs = ['<svg %s width="10" height="10"><path d="M %s %s L %s %s" stroke="black"/></svg>'
+             % ((NS,) + tuple(repr(float(v)) for v in c[1])) for c in ncases]
+    nouts = ctx.rvh_batch(binp, 'c07-write', ["-\t%s\t%s" % (wopts_str(dict(cp=p)), d) for (p, _), d in zip(ncases, ndocs)])
+    nitems, nmap, bad = [], [], []
+    for (p, vals), d, o in zip(ncases, ndocs, nouts):
+        r = jload(o)
+        m = re.search(r' d=["\']M (\S+) (\S+) L (\S+) (\S+)["\']', r.get('text', ''))
+        if not m:
+            bad.append((d, p, None, str({x: r[x] for x in r if x not in ('dump', 'skeleton')})[:200]))
+            continue
+        for v, tok in zip(vals, m.groups()):
+            try:
+                real = Fraction(tok)
+            except ValueError:
+                bad.append((d, p, v, tok))
+                continue
+            nitems.append("(%d%%Z, %s, (%d # %d))" % (p, vlib.qstr(v), real.numerator, real.denominator))
+            nmap.append((d, p, v, tok))
+    if nitems:
+        body = ("From Coq Require Import ZArith QArith Qround List Bool.\nImport ListNotations.\n" + NUM_DEFS +
+                "Definition cases : list (Z * Q * Q) := [\n%s\n].\nEval vm_compute in (bad_indices num_ok cases).\n" % ";\n".join(nitems))
+        rc, out = ctx.coq_eval('k_writenum_%s' % ctx.pid, body, ['Gen.WriterNum', 'Model.WriteNum', 'Model.Corr'])
+        bl = ctx.parse_N_list(out) if rc == 0 else None
+        if bl is None:
+            ctx.log("model evaluation (write-num) failed:\n" + out[-1500:])
+            return len(nitems), None
+        bad += [nmap[b] for b in bl]
+    return len(nitems), bad
+
+
+def src_of(doc):
+    if doc.startswith('@'):
+        try:
+            return open(doc[1:], encoding='utf-8', errors='replace').read()
+        except OSError:
+            return ''
+    return doc
 
 
 def run(ctx):
@@ -425,16 +474,25 @@ def run(ctx):
     gen_docs = [refgen.gen_ref_doc(rng, id_style=['plain', 'genlike', 'weird'][i % 3], big=(i % 5 == 0)) for i in range(ngen)]
     # hand-made inputs for the known classes and the fixed defects
     extra = [
-        '<svg %s width="100" height="100"><filter id="f"><feComposite operator="arithmetic" k1="1e40" k2="1" in2="SourceAlpha"/></filter>'
+        # F12 (fixed): must pass
+        '<svg %s width="100" height="100"><filter id="f"><feComposite operator="arithmetic" k1="1e40" k2="1" in2="SourceAlpha"/>'
+        '<feOffset dx="1e40"/><feColorMatrix type="hueRotate" values="1e39"/></filter><rect width="50" height="50" filter="url(#f)"/></svg>' % NS,
+        # F12 residual (known class obb-scaled-filter-number)
+        '<svg %s width="100" height="100"><filter id="f" primitiveUnits="objectBoundingBox"><feOffset dx="3e38" dy="0.1"/></filter>'
         '<rect width="50" height="50" filter="url(#f)"/></svg>' % NS,
         '<svg %s width="10" height="10"><rect id="a&amp;b" width="5" height="5"/></svg>' % NS,
         '<svg %s width="10" height="10"><path d="M 1.5 2.25 L 7.125 8" stroke="black"/></svg>' % NS,
     ]
+    # ids that already start with the prefix that is applied
+    extra.append('<svg %s width="20" height="20"><linearGradient id="pre-g"><stop offset="0" stop-color="red"/><stop offset="1" stop-color="blue"/>'
+                 '</linearGradient><clipPath id="pre-pre-c"><rect width="9" height="9"/></clipPath>'
+                 '<rect id="pre-" width="10" height="10" fill="url(#pre-g)" clip-path="url(#pre-pre-c)"/></svg>' % NS)
+    forced = {len(wit) + len(extra) - 1: 'pre-'}
     docs = ['@' + f for f in wit] + extra + ['@' + f for f in corpus] + gen_docs
     labels = [os.path.relpath(f, vlib.VERIF) for f in wit] + ['extra#%d' % i for i in range(len(extra))] + \
              [os.path.relpath(f, vlib.CORPUS) for f in corpus] + ['generated#%d' % i for i in range(ngen)]
     # witnesses of the defects fixed for this property family must pass outright
-    strict = set(k for k, f in enumerate(wit) if os.path.basename(f) in ('F08.svg', 'F09.svg', 'F13.svg'))
+    strict = set(k for k, f in enumerate(wit) if os.path.basename(f) in ('F08.svg', 'F09.svg', 'F13.svg', 'F46.svg'))
     nwit = len(wit)
     per_doc = 2 if quick else 4
     esc_variants = ['é-ü_', 'q"\'', 'a&<', 'p q', 'x)']
@@ -445,6 +503,8 @@ def run(ctx):
             w['pt'] = bool(j % 2)
             if w['prefix'] == PREFIXES['esc']:
                 w['prefix'] = rng.choice(esc_variants)
+            if k in forced:
+                w['prefix'] = forced[k]
             if k < nwit:
                 # the witnesses of fixed defects run with safe prefixes and with precisions above 12
                 w['prefix'] = [None, 'pre-', 'é-ü_'][(k + j) % 3]
@@ -496,7 +556,7 @@ def run(ctx):
                 nrefs = cnt[0]
             hist['with_refs'] += 1 if nrefs else 0
             ctx.note_case("%s|%s" % (labels[k] if docs[k].startswith('@') else docs[k], wopts_str(w)), nontrivial=nrefs > 0)
-            for cls, text in classify(r, w):
+            for cls, text in classify(r, w, src_of(docs[k])):
                 full = "%s: %s" % (lab, text)
                 rep = dict(doc=docs[k], wopts=wopts_str(w), op='c07-write', problem=text, klass=cls)
                 if cls is None or k in strict:
@@ -680,6 +740,6 @@ def replay(ctx, path):
                 m = re.search(r"prefix=([0-9a-f]*)", wo)
                 if m:
                     w['prefix'] = bytes.fromhex(m.group(1)).decode('utf-8', 'replace')
-                for cls, text in classify(o, w):
+                for cls, text in classify(o, w, src_of(doc)):
                     print("oracle: [%s] %s" % (cls, text))
     return 0
